@@ -28,6 +28,7 @@ def identity_ctor(reg: Registry, key: str):
 
 def contracts(reg: Registry, ctx):
     sqlmodel.install(reg, SCHEMA)
+    reg.sql_commit_faults = True    # a commit may fail ("database is locked"): exits through that fault are obligations too
     identity_ctor(reg, "pynenc.identifiers.invocation_id:InvocationId")
     reg.add_shape(Shape("Tables", fields={}))
     reg.add_shape(Shape("SQLiteBroker", fields={"sqlite_db_path": STR, "tables": ObjT("Tables"), "app": ObjT("App")},
@@ -88,6 +89,8 @@ def contracts(reg: Registry, ctx):
         ])],
         properties=["C08", "C02"],
         note="the meaning of the SELECT/DELETE statements is not proved (bounded stand-in broker_histories)")
+    retrieve.cases.append(Case("commit-fault", raises="OperationalError", ensures=[
+        ("a-failed-commit-removes-no-message", lambda c: T(not any(e.get("ev") == "commit" for e in all_events(c.st))))]))
 
     def send_inserts_once(c):
         ins = [e for e in stmts(c) if e["kind"] == "INSERT"]
@@ -97,9 +100,12 @@ def contracts(reg: Registry, ctx):
         others = [e for e in stmts(c) if e["kind"] in ("DELETE", "UPDATE")]
         return z3.And(T(committed and not others), ins[0]["params"][0].term == c.arg("invocation_id"),
                       T(ins[0]["info"]["columns"][0] == "invocation_id"))
+    def nothing_committed(c):
+        return T(not any(e.get("ev") == "commit" for e in all_events(c.st)))
     send = Contract(
         key=f"{SB}:SQLiteBroker.send_message", shape="SQLiteBroker", params={"invocation_id": ID}, frame=[],
-        cases=[Case("insert-one", ensures=[("exactly-one-INSERT-of-the-given-id-committed", send_inserts_once)])],
+        cases=[Case("insert-one", ensures=[("exactly-one-INSERT-of-the-given-id-committed", send_inserts_once)]),
+               Case("commit-fault", raises="OperationalError", ensures=[("a-failed-commit-adds-no-message", nothing_committed)])],
         properties=["C08"])
     for c in (retrieve, send):
         reg.add(c)
